@@ -124,7 +124,7 @@ def showPlog (l : List PCall) : String :=
 
 def dump (s : State) : String :=
   "alloc{" ++ showTbl s.alloc ++ "} free{" ++
-    joinWith "," ((sortBy (fun a b => a < b) s.free).map toString) ++ "} store{" ++ showTbl s.store ++
+    joinWith "," ((sortBy (fun a b => a < b) s.free).map toString) ++ "} store{" ++ showTbl (s.store ++ s.orphans) ++
     "} pods{" ++ joinWith ";" ((sortBy (fun a b => a < b) (s.pods.vals.map showPod))) ++
     "} events{" ++ joinWith "," (s.events.map (fun e =>
       e.pod.ns ++ "/" ++ e.pod.name ++ ":" ++ toString e.pod.uid ++ ":" ++ toString e.retries)) ++
